@@ -269,9 +269,29 @@ fn cycle_out<const N: usize>(r: &TxRxResponse<N>) -> CycleOut {
 
 const NEVER: &str = "<did not return>";
 
-/// Run `fut`, giving up once the virtual clock has advanced by `limit_us` (the futures under test
-/// keep polling the network, so they are polled again after every frame).
-async fn bounded<T>(limit_us: u64, fut: impl std::future::Future<Output = T>) -> Option<T> {
+/// Run `fut`, giving up once the virtual clock has advanced `limit_us` past the last state request
+/// any device received during the call (or 2 s past the start of the call, whichever comes
+/// first). The futures under test keep polling the network, so they are polled again after every
+/// frame.
+async fn bounded<T>(net: &NetHandle, limit_us: u64, fut: impl std::future::Future<Output = T>) -> Option<T> {
+    let mut fut = std::pin::pin!(fut);
+    let t0 = vclock::now();
+
+    std::future::poll_fn(|cx| {
+        let now = vclock::now();
+        let last_req = net.borrow().devices.iter().filter_map(|d| d.stats.al_control_at.last().map(|t| t / 1000)).max().unwrap_or(0).max(t0);
+        let requested = last_req > t0;
+
+        if (requested && now > last_req + limit_us) || now > t0 + 2_000_000 {
+            return std::task::Poll::Ready(None);
+        }
+
+        fut.as_mut().poll(cx).map(Some)
+    })
+    .await
+}
+
+async fn bounded_plain<T>(limit_us: u64, fut: impl std::future::Future<Output = T>) -> Option<T> {
     let mut fut = std::pin::pin!(fut);
     let end = vclock::now() + limit_us;
 
@@ -298,7 +318,7 @@ impl Ctx<'_> {
     async fn step<T>(&self, name: &'static str, req: u8, waits: bool, fut: impl std::future::Future<Output = Result<T, Error>>) -> Option<T> {
         let before = snap(self.net);
         let t0 = vclock::now();
-        let r = bounded(self.limit_us, fut).await;
+        let r = bounded(self.net, self.limit_us, fut).await;
         let t1 = vclock::now();
         let after = snap(self.net);
 
@@ -483,14 +503,14 @@ pub fn run_c10(case: &C10Case, info: &mut CaseInfo) -> Result<(), Fail> {
             let mut gs = [Some(g0), Some(g1), Some(g2)];
             let tg = gs[usize::from(c.target)].take().unwrap();
 
-            let cx = Ctx { limit_us: 20 * u64::from(c.timeout_us) + 5_000, net: &net2, recs: recs2.clone(), members: members_c, cycles: &c.cycles, group: usize::from(c.target) };
+            let cx = Ctx { limit_us: 4 * u64::from(c.timeout_us) + 3_000, net: &net2, recs: recs2.clone(), members: members_c, cycles: &c.cycles, group: usize::from(c.target) };
 
             run_path(&cx, md, tg, c.path).await;
 
             if c.second_group {
                 if let Some(s) = (0..ng).find(|g| *g != usize::from(c.target)) {
                     let g = gs[s].take().unwrap();
-                    let cx2 = Ctx { limit_us: 20 * u64::from(c.timeout_us) + 5_000, net: &net2, recs: recs2.clone(), members: members2_c, cycles: &[], group: s };
+                    let cx2 = Ctx { limit_us: 4 * u64::from(c.timeout_us) + 3_000, net: &net2, recs: recs2.clone(), members: members2_c, cycles: &[], group: s };
 
                     let _ = cx2.step("PreOp::into_safe_op", 4, true, g.into_safe_op(md)).await;
                 }
@@ -499,7 +519,7 @@ pub fn run_c10(case: &C10Case, info: &mut CaseInfo) -> Result<(), Fail> {
             if let Some(s) = c.md_wait {
                 let before = snap(&net2);
                 let t0 = vclock::now();
-                let r = bounded(20 * u64::from(c.timeout_us) + 5_000, md.wait_for_state(code_state(s))).await;
+                let r = bounded_plain(4 * u64::from(c.timeout_us) + 3_000, md.wait_for_state(code_state(s))).await;
                 let t1 = vclock::now();
                 let after = snap(&net2);
 
